@@ -5,16 +5,12 @@
 EXTENDS RxSeq
 
 NProbes == 3
-RECURSIVE ConcatPend(_)
-ConcatPend(t) == IF t.op = "concat" THEN Tail(t.in) ELSE IF t.in = <<>> THEN <<>> ELSE ConcatPend(t.in[1])
-InstRec(pend) == [flag |-> FALSE, tn |-> TRUE, te |-> TRUE, tc |-> TRUE, pend |-> pend]
 SbjInit(kind, hook) == [kind |-> kind, map |-> <<>>, serial |-> 0, items |-> <<>>, last |-> [has |-> kind = "behavior", v |-> 9],
                         err |-> [has |-> FALSE, v |-> 0], completed |-> FALSE, hook |-> hook]
 \* subjects 1..Len(c.sbj) are the harness subjects; then one subject per connectable (ref_count / replay: with connect hooks)
 InitHeap(c, t) ==
   LET ns == Len(c.sbj) IN
   [ EmptyHeap EXCEPT !.regs = [i \in 1..NProbes |-> <<>>],
-                     !.inst = << InstRec(<<>>), InstRec(<<>>), InstRec(ConcatPend(t)) >>,
                      !.sbj = [j \in 1..(ns + Len(c.conn)) |->
                                 IF j <= ns THEN SbjInit(c.sbj[j], 0)
                                 ELSE LET k == c.conn[j - ns].kind IN SbjInit(IF k = "replay" THEN "replay" ELSE "plain", IF k = "publish" THEN 0 ELSE j - ns)],
